@@ -4,7 +4,8 @@
 //! program and a root context are shared by reference among threads).  Run-time: for each input
 //! line `<ctx-sexpr>\t<src>\u{1}<src>…` the programs are executed by `threads` threads
 //! concurrently, each in an inner scope of its own over the shared root context, `rounds` times;
-//! every execution must yield what the sequential execution yields.
+//! every execution must yield what the sequential execution yields; then every pair of distinct
+//! programs is run head to head by two groups of threads.
 use celharness::ctx::{CtxSpec, Log};
 use celharness::sx::parse_all;
 use celharness::wire::result_to_sx;
@@ -12,6 +13,15 @@ use cel_interpreter::{Context, ExecutionError, Program, Value};
 use std::sync::{Arc, Mutex};
 
 fn assert_send_sync<T: Send + Sync>() {}
+
+/// programs are told apart by their position's expected answer and index of first occurrence
+fn srcs_key(_progs: &[Program], i: usize, expected: &[String]) -> (String, usize) {
+    (expected[i].clone(), SRC_IDS.with(|m| m.borrow().get(i).copied().unwrap_or(i)))
+}
+
+thread_local! {
+    static SRC_IDS: std::cell::RefCell<Vec<usize>> = std::cell::RefCell::new(vec![]);
+}
 
 fn main() {
     assert_send_sync::<Program>();
@@ -29,7 +39,9 @@ fn main() {
         let srcs: Vec<&str> = parts.next().unwrap_or("").split('\u{1}').collect();
         let spec = CtxSpec::from_sx(&parse_all(ctx_sx)[0]).expect("bad ctx");
         let log: Log = Arc::new(Mutex::new(vec![]));
-        let progs: Vec<Program> = srcs.iter().filter_map(|s| Program::compile(s).ok()).collect();
+        let compiled: Vec<(&str, Program)> = srcs.iter().filter_map(|s| Program::compile(s).ok().map(|p| (*s, p))).collect();
+        SRC_IDS.with(|m| *m.borrow_mut() = compiled.iter().map(|(s, _)| compiled.iter().position(|(s2, _)| s2 == s).unwrap()).collect());
+        let progs: Vec<Program> = compiled.into_iter().map(|(_, p)| p).collect();
         let verdict = spec.with_context(&log, |root| {
             // sequential reference
             let expected: Vec<String> = progs.iter().map(|p| result_to_sx(&p.execute(root)).to_text()).collect();
@@ -55,6 +67,31 @@ fn main() {
                     });
                 }
             });
+            // contention phase: every pair of distinct programs (of the first 8) runs simultaneously,
+            // half of the threads looping on one, half on the other — state hidden behind one
+            // program (a cache, a scratch buffer, a counter) must not leak into the other
+            let mut seen = std::collections::HashSet::new();
+            let distinct: Vec<usize> = (0..progs.len()).filter(|&i| seen.insert(srcs_key(progs, i, expected))).take(8).collect();
+            for (a_pos, &a) in distinct.iter().enumerate() {
+                for &b in &distinct[a_pos + 1..] {
+                    std::thread::scope(|s| {
+                        for t in 0..threads.max(2) {
+                            let bad = &bad;
+                            let i = if t % 2 == 0 { a } else { b };
+                            s.spawn(move || {
+                                let inner = root.new_inner_scope();
+                                for r in 0..(rounds * 3).min(60) {
+                                    let got = result_to_sx(&progs[i].execute(&inner)).to_text();
+                                    if got != expected[i] {
+                                        *bad.lock().unwrap() = Some(format!("thread {t} iteration {r}, program {i} running against program {}: {got} instead of {}", if i == a { b } else { a }, expected[i]));
+                                        break;
+                                    }
+                                }
+                            });
+                        }
+                    });
+                }
+            }
             // and the shared context still yields the sequential results afterwards
             for (i, p) in progs.iter().enumerate() {
                 let got = result_to_sx(&p.execute(root)).to_text();
